@@ -55,6 +55,35 @@ Proof.
   rewrite (from_to_le r Hr) in L. lia.
 Qed.
 
+Lemma stripped_ge_gen r : 2 <= r -> forall c, digits_ok r c -> (forall x t, c = x :: t -> x <> 0) -> c <> [] ->
+  r ^ N.of_nat (length c - 1) <= from_be r c.
+Proof.
+  intros Hr c Hc Hhd Hne. unfold from_be. rewrite <- (rev_length c).
+  apply (from_le_ge r Hr).
+  - destruct c as [|x t]; [congruence|]. simpl.
+    apply (canon_le_snoc r); [apply digits_ok_rev; inversion Hc; auto|inversion Hc; auto|eapply Hhd; eauto].
+  - intro E. apply Hne. rewrite <- (rev_involutive c), E. reflexivity.
+Qed.
+
+(* the check of __UnPad, len(dec.lstrip(b"\x00")) > d, says exactly that the value does not fit d bytes *)
+Lemma lstrip_check dec d : bytes_ok dec ->
+  (d <? length (lstrip 0 dec))%nat = negb (be_to_int dec <? 256 ^ N.of_nat d).
+Proof.
+  intros Hb. set (c := lstrip 0 dec).
+  assert (Hc : bytes_ok c).
+  { rewrite (lead_count_lstrip 0 dec) in Hb. apply bytes_ok_app in Hb. tauto. }
+  assert (V : be_to_int dec = be_to_int c).
+  { rewrite (lead_count_lstrip 0 dec) at 1. apply be_to_int_zeros. }
+  rewrite V. destruct (Nat.ltb_spec d (length c)) as [L|L].
+  - assert (G : 256 ^ N.of_nat (length c - 1) <= be_to_int c).
+    { apply (stripped_ge_gen 256 r256); [exact Hc|apply lstrip_hd|]. destruct c; [simpl in L; lia|discriminate]. }
+    assert (256 ^ N.of_nat d <= 256 ^ N.of_nat (length c - 1)) by (apply N.pow_le_mono_r; lia).
+    destruct (N.ltb_spec (be_to_int c) (256 ^ N.of_nat d)); [lia|reflexivity].
+  - pose proof (be_to_int_lt c Hc).
+    assert (256 ^ N.of_nat (length c) <= 256 ^ N.of_nat d) by (apply N.pow_le_mono_r; lia).
+    destruct (N.ltb_spec (be_to_int c) (256 ^ N.of_nat d)); [reflexivity|lia].
+Qed.
+
 Section XmrProofs.
   Variable alph : list N.
   Variable radix : N.
@@ -84,12 +113,10 @@ Section XmrProofs.
   Notation pad := (pad alph).
   Notation enc_blocks := (enc_blocks alph radix dec_max enc_max).
   Notation dec_block := (dec_block alph radix).
-  Notation dec_block_current := (dec_block_current alph radix).
   Notation dec_blocks := (dec_blocks dec_max enc_max).
   Notation decode_gen := (decode_gen dec_max enc_max enc_lens).
   Notation encode := (Base58Xmr.encode alph radix dec_max enc_max enc_lens).
   Notation decode := (Base58Xmr.decode alph radix dec_max enc_max enc_lens).
-  Notation decode_current := (Base58Xmr.decode_current alph radix dec_max enc_max enc_lens).
   Notation a0 := (Base58.a0 alph).
 
   Let b58_decode_encode := Lemmas.Base58.decode_encode alph radix alph_nodup alph_len radix_ge2.
@@ -159,10 +186,12 @@ Section XmrProofs.
       change (Base58Xmr.b58dec alph radix (Base58Xmr.b58enc alph radix (repeat 0 j ++ blk)))
         with (Base58.decode alph radix (Base58.encode alph radix (repeat 0 j ++ blk))).
       rewrite b58_decode_encode by (apply bytes_ok_app; split; [apply bytes_ok_repeat0|exact Hb]).
-      cbn [bind Ok]. rewrite be_to_int_zeros.
+      cbn [bind Ok].
+      rewrite lstrip_check by (apply bytes_ok_app; split; [apply bytes_ok_repeat0|exact Hb]).
+      rewrite be_to_int_zeros.
       pose proof (be_to_int_lt blk Hb) as L. rewrite Hl in L.
       destruct (N.ltb_spec (be_to_int blk) (256 ^ N.of_nat d)); [|exfalso; lia].
-      subst d. rewrite unpad_zeros. reflexivity.
+      cbn [negb]. subst d. rewrite unpad_zeros. reflexivity.
   Qed.
 
   Lemma enc_blocks_length cnt : forall b, bytes_ok b -> length b = (cnt * dec_max)%nat ->
@@ -416,7 +445,8 @@ Section XmrProofs.
     length U = d /\ bytes_ok U /\ pad e (b58enc U) = t.
   Proof.
     intros He Hl. unfold Base58Xmr.dec_block. destruct (b58dec t) as [dec|] eqn:D; cbn [bind]; [|discriminate].
-    destruct (N.ltb_spec (be_to_int dec) (256 ^ N.of_nat d)) as [V|]; [|discriminate].
+    rewrite lstrip_check by (apply (b58dec_value _ _ D)).
+    destruct (N.ltb_spec (be_to_int dec) (256 ^ N.of_nat d)) as [V|]; cbn [negb]; [|discriminate].
     intros E. assert (EU : U = unpad d dec) by (unfold Ok in E; congruence). subst U. clear E.
     pose proof (block_dec_length _ _ _ _ He Hl D) as Ld.
     destruct (b58dec_value _ _ D) as [BV Bd].
@@ -426,52 +456,17 @@ Section XmrProofs.
     - apply (block_canonical_iff t d e dec _ He Hl D BV). exact V.
   Qed.
 
-  Lemma dec_block_current_of d t U : dec_block d t = Ok U -> dec_block_current d t = Ok U.
-  Proof.
-    unfold Base58Xmr.dec_block, Base58Xmr.dec_block_current.
-    destruct (b58dec t) as [dec|]; cbn [bind]; [|discriminate].
-    destruct (be_to_int dec <? 256 ^ N.of_nat d); [auto|discriminate].
-  Qed.
-
   Lemma dec_block_err d t e : dec_block d t = Err e -> e = ValueError.
   Proof.
     unfold Base58Xmr.dec_block. destruct (b58dec t) as [dec|e'] eqn:D; cbn [bind].
-    - destruct (be_to_int dec <? 256 ^ N.of_nat d); [discriminate|]. unfold Err. congruence.
+    - destruct (d <? length (lstrip 0 dec))%nat; [|discriminate]. unfold Err. congruence.
     - intros E. assert (e' = e) by (unfold Err in E; congruence). subst e'.
       eapply Lemmas.Base58.decode_err; exact D.
   Qed.
 
-  Lemma dec_block_current_err d t e : dec_block_current d t = Err e -> e = ValueError.
-  Proof.
-    unfold Base58Xmr.dec_block_current. destruct (b58dec t) as [dec|e'] eqn:D; cbn [bind]; [discriminate|].
-    intros E. assert (e' = e) by (unfold Err in E; congruence). subst e'.
-    eapply Lemmas.Base58.decode_err; exact D.
-  Qed.
-
   Section Generic.
-    Variables f g : nat -> list N -> res (list N).
-    Hypothesis fg : forall d t x, f d t = Ok x -> g d t = Ok x.
+    Variable f : nat -> list N -> res (list N).
     Hypothesis f_err : forall d t e, f d t = Err e -> e = ValueError.
-
-    Lemma dec_blocks_mono cnt : forall s b, dec_blocks f cnt s = Ok b -> dec_blocks g cnt s = Ok b.
-    Proof.
-      induction cnt as [|c IH]; intros s b; [auto|]. cbn [Base58Xmr.dec_blocks].
-      destruct (f dec_max (firstn enc_max s)) as [d|] eqn:F; cbn [bind]; [|discriminate].
-      rewrite (fg _ _ _ F). cbn [bind Ok].
-      destruct (dec_blocks f c (skipn enc_max s)) as [r|] eqn:R; cbn [bind]; [|discriminate].
-      rewrite (IH _ _ R). auto.
-    Qed.
-
-    Lemma decode_gen_mono s b : decode_gen f s = Ok b -> decode_gen g s = Ok b.
-    Proof.
-      unfold Base58Xmr.decode_gen.
-      destruct (index_of_nat _ enc_lens) as [ld|]; cbn [of_option bind]; [|discriminate].
-      destruct (dec_blocks f _ s) as [full|] eqn:F; cbn [bind]; [|discriminate].
-      rewrite (dec_blocks_mono _ _ _ F). cbn [bind Ok].
-      destruct (0 <? _)%nat; [|auto].
-      destruct (f ld _) as [d|] eqn:Fl; cbn [bind]; [|discriminate].
-      rewrite (fg _ _ _ Fl). auto.
-    Qed.
 
     Lemma dec_blocks_err cnt : forall s e, dec_blocks f cnt s = Err e -> e = ValueError.
     Proof.
@@ -495,20 +490,8 @@ Section XmrProofs.
     Qed.
   End Generic.
 
-  (* the repaired decoder only ever rejects more: whatever it accepts the current code accepts identically *)
-  Theorem decode_current_of s b : decode s = Ok b -> decode_current s = Ok b.
-  Proof. apply decode_gen_mono. exact dec_block_current_of. Qed.
-
   Theorem decode_err s e : decode s = Err e -> e = ValueError.
   Proof. apply decode_gen_err. exact dec_block_err. Qed.
-  Theorem decode_current_err s e : decode_current s = Err e -> e = ValueError.
-  Proof. apply decode_gen_err. exact dec_block_current_err. Qed.
-
-  Theorem decode_current_encode b : bytes_ok b -> exists s, encode b = Ok s /\ decode_current s = Ok b.
-  Proof.
-    intros Hb. destruct (decode_encode b Hb) as (s & E & D). exists s. split; [exact E|].
-    apply decode_current_of; exact D.
-  Qed.
 
   Lemma dec_blocks_canon cnt : forall s b, (cnt * enc_max <= length s)%nat ->
     dec_blocks dec_block cnt s = Ok b ->
